@@ -148,18 +148,21 @@ func (g *GcsEmu) makeBucketListResults(ctx context.Context, baseUrl HttpBaseUrl,
 
 	// Resolve the found items.
 	var items []*storage.Object
+	resolvedAll := true
 	for _, item := range found {
 		if obj, err := g.store.ReadMeta(baseUrl, bucket, item.filename, item.fInfo); err != nil {
 			// return our partial results + the cursor so that the client can retry from this point
 			g.log(nil, "failed to resolve: %s", item.filename)
+			resolvedAll = false
 			break
-		} else {
+		} else if obj != nil {
+			// (an object that was deleted since the walk saw it is no longer part of the listing)
 			items = append(items, obj)
 		}
 	}
 
 	var nextPageToken = ""
-	if len(items) < len(found) {
+	if !resolvedAll {
 		// partial results: resume after the last item that could be resolved
 		if moreResults && len(items) > 0 {
 			nextPageToken = gcsutil.EncodePageToken(items[len(items)-1].Name)
